@@ -4,7 +4,10 @@ c="$1"; prop="$2"; shift 2
 git -C /repo status --short | grep -v '^??' | grep . && { echo "/repo not clean"; exit 2; }
 git -C /repo diff "$c~1" "$c" > /tmp/revert-$$.diff
 git -C /repo apply -R /tmp/revert-$$.diff || { echo "cannot reverse-apply $c"; rm -f /tmp/revert-$$.diff; exit 2; }
+cp /verif/evidence/$prop.json /tmp/evidence-$prop.keep 2>/dev/null
 cd /verif && ./check "$prop" "$@"; rc=$?
 git -C /repo checkout -- .
+# the evidence file describes the unchanged tree: put back what was there before
+[ -f /tmp/evidence-$prop.keep ] && mv /tmp/evidence-$prop.keep /verif/evidence/$prop.json
 rm -f /tmp/revert-$$.diff
 echo "check exit code with $c reverted: $rc"
